@@ -66,6 +66,9 @@ pub mod solver;
 pub mod timers;
 
 pub(crate) mod utils;
+
+#[cfg(clarabel_verif)]
+pub mod verif;
 pub use crate::utils::infbounds::*;
 
 #[cfg(feature = "python")]
